@@ -59,7 +59,7 @@ PROPS = {
         "level": "exploration",
         "tests": [
             {"name": "TestC16", "quick": 2000, "thorough": 40000},
-            {"name": "TestC16Ex", "kind": "plain", "shards": {"quick": 4, "thorough": 4}},
+            {"name": "TestC16Ex", "kind": "plain", "noasm": True, "shards": {"quick": 4, "thorough": 4}},
             {"name": "TestC16Ctor", "kind": "plain"},
         ],
         "rule": "exhaustive: every call sequence of length 1..4 (quick) / 1..5 (thorough) over {Write(empty), Write(37), Write(buffer-full+7), Flush, Close, Reset} x 24 settings (flate 4K/32K, gzip, zlib; levels -2,-1,0,1,2,6,9); random sequences up to length 40 beyond; constructor x level in [-5,12]. "
